@@ -458,6 +458,9 @@ func (p *Prog) ConstMap(g *ssa.Global) map[string]AV {
 			if !kok {
 				return nil
 			}
+			if ct, isCT := val.(*ssa.ChangeType); isCT {
+				val = ct.X // a function stored under a named function type
+			}
 			var vav AV
 			switch v := val.(type) {
 			case *ssa.Const:
